@@ -114,6 +114,30 @@ class C12(fw.Prop):
             out3 = self.shared().calculate_for(buf, lsb_first=lsb)
             if bytes(out3) != bytes(out):
                 return "ok " + fw.hx(out3) + " !reused-buffer-differs-from-fresh " + fw.hx(out)
+            # ... and the message is the caller's: it is still what it was (appending the check value to it gives the residue)
+            if bytes(buf) != msg:
+                return "ok " + fw.hx(out3) + " !message-buffer-was-modified " + fw.hx(bytes(buf)[:40])
+            if d.get("other_options"):
+                # calculators configured differently through whatever optional arguments the constructor offers (none today) are
+                # built and used next to the default one: the default calculator, and the ones the frame classes hold, still
+                # compute X-25
+                import inspect
+                for name, prm in list(inspect.signature(CRCCCITT.__init__).parameters.items())[1:]:
+                    if prm.default is inspect.Parameter.empty or prm.kind in (prm.VAR_POSITIONAL, prm.VAR_KEYWORD):
+                        continue
+                    dflt = prm.default
+                    alts = [not dflt] if isinstance(dflt, bool) else ([dflt ^ 0x2D44, 0x3D65, 0x8005, 0, dflt + 1] if isinstance(dflt, int) else
+                                                                      [b"\x00\x00", None] if isinstance(dflt, (bytes, type(None))) else [])
+                    for alt in alts:
+                        try:
+                            CRCCCITT(**{name: alt}).calculate_for(msg or b"123456789")
+                        except fw._Timeout:
+                            raise
+                        except Exception:  # noqa
+                            pass
+                again = CRCCCITT().calculate_for(msg, lsb_first=lsb)
+                if bytes(again) != bytes(out):
+                    return "ok " + fw.hx(again) + " !default-calculator-changed-after-another-was-configured " + fw.hx(out)
             ref = x25_ref(msg)
             if (out[::-1] if lsb else out) != ref:
                 return "ok " + fw.hx(out) + " !=ref " + fw.hx(ref)
@@ -126,6 +150,7 @@ class C12(fw.Prop):
         return fw.Case(line, impl, "prop", d, tags=("lsb_first" if lsb else "default", f"len{min(len(msg), 9)}" if len(msg) < 9 else "len>=9"))
 
     def cases(self, rng, tier, deep):
+        yield self.make_case({"msg": "313233343536373839", "other_options": True})
         yield self.make_case({"msg": ""})
         yield self.make_case({"msg": "", "lsb_first": True})
         yield self.make_case({"msg": "313233343536373839"})
